@@ -106,13 +106,17 @@ def _raw_array(val):
         return np.array(val, dtype=object)
     return np.asarray(val)
 
-def _signed_value(val):
+def _signed_value(val, n_bits=0):
     """
-    The value(s) of an unsigned integer object (an uint64 array or scalar below 2**63) in a signed type,
-    so that a negative result of the value ('repr') method does not wrap around.
+    The integer value(s) of an object with an integer value type, as handed to a NumPy function by the value ('repr') method:
+    Python integers when the result may need `n_bits` >= 63 bits (int64 / uint64 arithmetic would wrap silently), otherwise
+    a signed type (an uint64 array would wrap a negative result around).
     """
-    if isinstance(val, (np.ndarray, np.generic)) and val.dtype == np.uint64 and (val.size == 0 or np.max(val) < 2**63):
-        return val.astype(np.int64)
+    if isinstance(val, (np.ndarray, np.generic)) and val.dtype != object and np.issubdtype(val.dtype, np.integer):
+        if n_bits >= 63:
+            return np.asarray(val).astype(object)
+        if val.dtype == np.uint64:
+            return val.astype(np.int64)
     return val
 
 def _rescale(val, shift, n_frac, exact=False):
@@ -217,7 +221,7 @@ def _function_over_two_vars(repr_func, raw_func, x, y, out=None, out_like=None, 
 
     if method == 'repr' or x.scaled or n_frac is None:
         raw = False
-        val = repr_func(_signed_value(x.get_val()), _signed_value(y.get_val()), **kwargs)
+        val = repr_func(_signed_value(x.get_val(), x.n_word + y.n_word), _signed_value(y.get_val(), x.n_word + y.n_word), **kwargs)
     elif method == 'raw':
         raw = True
         kwargs['n_frac'] = n_frac
